@@ -142,6 +142,15 @@ impl From<mpsc::error::TrySendError<PortEvt>> for TrySendError {
     }
 }
 
+impl From<mpsc::error::TrySendError<()>> for TrySendError {
+    fn from(err: mpsc::error::TrySendError<()>) -> Self {
+        match err {
+            mpsc::error::TrySendError::Full(()) => Self::Full,
+            mpsc::error::TrySendError::Closed(()) => Self::Send(SendError::ChMux),
+        }
+    }
+}
+
 impl Error for TrySendError {}
 
 /// This future resolves when the remote endpoint has closed its receiver.
@@ -280,10 +289,14 @@ impl Sender {
     pub async fn send(&mut self, mut data: Bytes) -> Result<(), SendError> {
         if data.is_empty() {
             let mut credits = self.credits.request(1, 1).await?;
+
+            // Credits are only taken once queue space has been obtained, so that they are
+            // returned if this function is cancelled.
+            let permit = self.tx.reserve().await?;
             credits.take(1);
 
             let msg = PortEvt::SendData { remote_port: self.remote_port, data, first: true, last: true };
-            self.tx.send(msg).await?;
+            permit.send(msg);
         } else {
             let mut first = true;
             let mut credits = AssignedCredits::default();
@@ -292,6 +305,10 @@ impl Sender {
                 if credits.is_empty() {
                     credits = self.credits.request(data.len().min(u32::MAX as usize) as u32, 1).await?;
                 }
+
+                // Credits are only taken once queue space has been obtained, so that they are
+                // returned if this function is cancelled.
+                let permit = self.tx.reserve().await?;
 
                 let at = data.len().min(self.chunk_size).min(credits.available() as usize);
                 let chunk = data.split_to(at);
@@ -304,7 +321,7 @@ impl Sender {
                     first,
                     last: data.is_empty(),
                 };
-                self.tx.send(msg).await?;
+                permit.send(msg);
 
                 first = false;
             }
@@ -329,9 +346,10 @@ impl Sender {
         if data.is_empty() {
             match self.credits.try_request(1)? {
                 Some(mut credits) => {
+                    let permit = self.tx.try_reserve()?;
                     credits.take(1);
                     let msg = PortEvt::SendData { remote_port: self.remote_port, data, first: true, last: true };
-                    self.tx.try_send(msg)?;
+                    permit.send(msg);
                     Ok(())
                 }
                 None => Err(TrySendError::Full),
@@ -341,6 +359,8 @@ impl Sender {
                 Some(mut credits) => {
                     let mut first = true;
                     while !data.is_empty() {
+                        let permit = self.tx.try_reserve()?;
+
                         let at = data.len().min(self.chunk_size);
                         let chunk = data.split_to(at);
 
@@ -352,7 +372,7 @@ impl Sender {
                             first,
                             last: data.is_empty(),
                         };
-                        self.tx.try_send(msg)?;
+                        permit.send(msg);
 
                         first = false;
                     }
@@ -406,6 +426,10 @@ impl Sender {
                     self.credits.request(data_len.min(u32::MAX as usize) as u32, size_of::<u32>() as u32).await?;
             }
 
+            // Credits are only taken once queue space has been obtained, so that they are
+            // returned if this function is cancelled.
+            let permit = self.tx.reserve().await?;
+
             let max_ports = self.chunk_size.min(credits.available() as usize) / size_of::<u32>();
             let next =
                 if ports_response.len() > max_ports { ports_response.split_off(max_ports) } else { Vec::new() };
@@ -419,7 +443,7 @@ impl Sender {
                 wait,
                 ports: ports_response,
             };
-            self.tx.send(msg).await?;
+            permit.send(msg);
 
             ports_response = next;
             first = false;
@@ -509,11 +533,15 @@ impl<'a> ChunkSender<'a> {
             if self.credits.is_empty() {
                 self.credits = self.sender.credits.request(1, 1).await?;
             }
+
+            // Credits are only taken once queue space has been obtained, so that they are
+            // returned if this function is cancelled.
+            let permit = self.sender.tx.reserve().await?;
             self.credits.take(1);
 
             let msg =
                 PortEvt::SendData { remote_port: self.sender.remote_port, data, first: self.first, last: finish };
-            self.sender.tx.send(msg).await?;
+            permit.send(msg);
 
             self.first = false;
         } else {
@@ -522,6 +550,10 @@ impl<'a> ChunkSender<'a> {
                     self.credits =
                         self.sender.credits.request(data.len().min(u32::MAX as usize) as u32, 1).await?;
                 }
+
+                // Credits are only taken once queue space has been obtained, so that they are
+                // returned if this function is cancelled.
+                let permit = self.sender.tx.reserve().await?;
 
                 let at = data.len().min(self.sender.chunk_size).min(self.credits.available() as usize);
                 let chunk = data.split_to(at);
@@ -534,7 +566,7 @@ impl<'a> ChunkSender<'a> {
                     first: self.first,
                     last: data.is_empty() && finish,
                 };
-                self.sender.tx.send(msg).await?;
+                permit.send(msg);
 
                 self.first = false;
             }
